@@ -22,8 +22,8 @@
    (Parse/Using.v), static_assert, friends and access specifiers.
 
    Outside this model (code 4): `[[...]]` / alignas behind the class key, qualified or
-   templated class names, elaborated type specifiers in declarations (`struct X x;`),
-   template headers, class definitions behind `typedef` inside a class.
+   templated class names, templated declarations other than classes, class
+   definitions behind `typedef` inside a class.
    Tied to the code by the differential run of harness/classdef.py. *)
 From Coq Require Import NArith List Bool Lia.
 Import ListNotations.
@@ -178,7 +178,7 @@ Definition class_stmt_head (td tmpl : bool) (toks : list tk) : chead :=
               | DOk (b, Some items, r4) => CHEnum m2 key nm b items r4
               | DOk (None, None, _) => CHErr 3
               end
-          | DOk (_, _) => CHErr 4                      (* `struct X x;`: an elaborated type specifier *)
+          | DOk (_, _) => CHNot                        (* `struct X x;`: an elaborated type specifier in a declaration: the declaration models *)
           end
       end
   end.
